@@ -185,6 +185,11 @@ class Interp:
             return v if v is not None else ('undef',)
         if lv in st.mem:
             return st.mem[lv]
+        fz = getattr(self, 'frozen', None)
+        if fz and lv in fz and ('frozen', lv) in st.facts:
+            # a location the caller of the analysis fixed for the run: the marker fact is dropped on every path where it is
+            # stored to or user code runs (see write / apply_callable), so a re-read after a loop or an opaque call is the same value
+            return fz[lv]
         if k == 'fld':
             base = lv[1]
             if base[0] == 'variant':
@@ -212,6 +217,9 @@ class Interp:
             # field of a local whose value is not an aggregate: project the value
             bv = self.read(st, lv[1]) if k in ('fld',) else None
             if bv is not None and bv[0] != 'undef':
+                r = self.project(bv, lv[2]) if k == 'fld' else None
+                if r is not None:
+                    return r
                 return ('app', 'proj', bv, lv[2] if k == 'fld' else '?')
         return v
 
@@ -347,6 +355,8 @@ class Interp:
         return None
 
     def write(self, st, lv, val):
+        if getattr(self, 'frozen', None) and root_of(lv)[0] != 'local':
+            st.facts -= {f for f in st.facts if f[0] == 'frozen' and (lv_prefix(lv, f[1]) or lv_prefix(f[1], lv) or lv[0] != 'fld' or f[1][0] != 'fld' or lv[2] == f[1][2])}
         if lv[0] == 'local':
             st.env[(lv[1], lv[2])] = val
             for k in [k for k in st.mem if lv_prefix(lv, k) and k != lv]:
@@ -608,6 +618,11 @@ class Interp:
             if tt[1] == 'eq':
                 # comparing addresses of two references: ptr::eq(a, b)
                 pass
+            return out
+        if t[0] == 'app' and t[1] in ('is_some', 'is_ok') and len(t) == 3:
+            names = ('Some', 'None') if t[1] == 'is_some' else ('Ok', 'Err')
+            out |= self.variant_facts(st, t[2], {names[0] if pol else names[1]}, depth + 1)
+            out.add(('true' if pol else 'nottrue', t))
             return out
         if t[0] == 'app' and t[1] in ('band', 'and') and pol:
             out |= self.truth(st, t[2], True, depth + 1)
@@ -886,6 +901,40 @@ class Interp:
             self._fid = prev
 
     def _run_body(self, body, fid, st, args, entry=False, keep_frame=False):
+        # A loop-carried local that every back edge leaves at its initial value (`let mut found = None; loop { .. if
+        # found.is_some() { break } }`) is not loop-variant: the body is re-run with that local kept at its initial value.
+        inv = getattr(self, '_loop_inv', None)
+        if inv is None:
+            inv = self._loop_inv = {}
+        for attempt in range(3):
+            st0 = st.copy()
+            nev, ndiv = len(self.res.events), len(self.res.diverged)
+            r = self._run_body_once(body, fid, st0, args, entry, keep_frame)
+            new = False
+            for (bid, h), rec in self.res.loops.items():
+                if bid != body['id'] or rec['fid'] != fid or not rec['step']:
+                    continue
+                for l, symv in rec['sym'].items():
+                    if (fid, h, l) in inv:
+                        continue
+                    init = rec['init'].get(l)
+                    if init is None or init[0] == 'undef':
+                        continue
+                    none_like = init[0] == 'agg' and not init[3] and init[2]
+                    if all(s['env'].get(l) == symv or s['env'].get(l) == init or
+                           (none_like and s['env'].get(l) is not None and ('is', s['env'].get(l), init[2]) in s['facts']) for s in rec['step']) \
+                            and any(s['env'].get(l) != symv for s in rec['step']):
+                        inv[(fid, h, l)] = init
+                        new = True
+            if not new or attempt == 2:
+                if entry:
+                    # the caller keeps using the state object it passed in
+                    st.env, st.mem, st.facts, st.epoch = st0.env, st0.mem, st0.facts, st0.epoch
+                return r
+            del self.res.events[nev:]
+            del self.res.diverged[ndiv:]
+
+    def _run_body_once(self, body, fid, st, args, entry=False, keep_frame=False):
         self._fid = fid
         g = self.cfg(body)
         loops = g.loops()
@@ -1002,16 +1051,24 @@ class Interp:
             if t['k'] == 'drop':
                 writes_mem = True
         # locals whose address is taken inside the loop may be written through that address
+        addr_only = set()
         for b in loop_blocks:
             for s in body['blocks'][b]['stmts']:
                 if s['k'] == 'assign' and s['rv']['k'] in ('ref', 'rawptr') and s['rv'].get('mut', True):
                     if not any(e['k'] == 'deref' for e in s['rv']['place']['proj']):
+                        if s['rv']['place']['l'] not in assigned:
+                            addr_only.add(s['rv']['place']['l'])
                         assigned.add(s['rv']['place']['l'])
         widened = set()
         rec = {'fid': fid, 'init': {}, 'sym': {}, 'init_mem': {}, 'step': [], 'facts': set(st.facts)}
         self.res.loops[(body['id'], header)] = rec
         for l in assigned:
             key = (fid, l)
+            if key in st.env and (fid, header, l) in getattr(self, '_loop_inv', {}) and self._loop_inv[(fid, header, l)] == st.env[key]:
+                continue
+            if key in st.env and l in addr_only and st.env[key][0] == 'agg' and st.env[key][1].startswith('iter:'):
+                # a modelled iterator value is a description (source, closures); what advances is the state its closures capture
+                continue
             if key in st.env:
                 nv = ('opaque', next(self.counter), 'loop%s:_%s' % (header, l))
                 rec['init'][l] = st.env[key]
@@ -1296,6 +1353,8 @@ class Interp:
                     return r
         # unknown callable (user callback)
         self.res.events.append(Event('usercall', fid[-1][0], tuple(fid), bi, None, st.copy(), callee='<callable>', args=cargs))
+        if getattr(self, 'frozen', None):
+            st.facts -= {f for f in st.facts if f[0] == 'frozen'}
         self.havoc_args(st, cargs)
         self.havoc(st, 'callable')
         return ('call', '<callable>', tuple(cargs), next(self.counter))
